@@ -4,6 +4,8 @@ import json, os
 VERIF = os.path.dirname(os.path.dirname(os.path.abspath(__file__)))
 props = [json.loads(l)['id'] for l in open(os.path.join(VERIF, 'properties.jsonl'))]
 
+BR = ("Bridge.lean ties the finite-domain functions involved (name characters, type classes, array acceptance, format "
+      "acceptance, tab-width clamp, string escapes) to tables the real code is made to print over its whole domain on every run. ")
 TB = ("Trusted base: Lean 4.33 kernel (+ leanchecker in the thorough tier); axioms propext, Classical.choice, Quot.sound only "
       "(audited by #print axioms on every run; no sorry/admit/native_decide/bv_decide/user axioms); tools/translate.py; the "
       "correspondence harness and its generators; glibc printf/strtod/strto* specifications. ")
@@ -85,7 +87,7 @@ CHECKS = {
          "history length. The model's API functions are tied to lib/libconfig.c by correspondence (shape projection; every history over a "
          "16-op alphabet up to length 3/4 plus long random histories) and a C implementation of the invariant walks the real structs "
          "(parent/config back-pointers, index and member-lookup agreement) — also as a probe on every shrunk disagreement."),
-   note=TB + "Back-pointers (parent, config) are derived in the model; they are checked on the real structs by the harness.",
+   note=TB + BR + "Back-pointers (parent, config) are derived in the model; they are checked on the real structs by the harness.",
    technique='invariant proved by induction over operations and over the parser loop in Lean 4 (with a kernel-decided automaton fact); hand-written model tied by differential correspondence',
    ref='§5 C04'),
  'C05': dict(
@@ -93,7 +95,7 @@ CHECKS = {
          "says), failure atomicity for every non-read operation, frame theorems for assignments, attribute preservation by clear/read and "
          "the documented argument conventions; the mechanism-level model is tied to lib/libconfig.c by full-projection correspondence "
          "(every return value and a full dump after every operation)."),
-   note=TB, technique='refinement to an ordered-tree specification proved in Lean 4 + full-state differential correspondence', ref='§5 C05'),
+   note=TB + BR, technique='refinement to an ordered-tree specification proved in Lean 4 + full-state differential correspondence', ref='§5 C05'),
  'C06': dict(
    text=("Theorems: C06_lookup_eq_resolve (the path walker computes exactly the declarative resolution parseSteps+walk), C06_sound "
          "(whatever resolves is reached by steps that exist: exact member names / in-range indices, never below a scalar), C06_complete "
@@ -149,7 +151,7 @@ CHECKS = {
          "files, no trailing newline, files ending inside a group/list/string/comment, odd names, with/without include dir, absolute "
          "paths, default and custom multi-path include functions): read_file(top) vs read_string(spliced text), recorded (file, line) "
          "of every setting, chains succeed iff <= 10, error triples for cycles / missing targets / include-function errors."),
-   note=TB + "C10_splice keeps one hypothesis: the read with includes does not run out of the model's fuel (the scanner side is unconditional: C10_tokens_exist). Known finding C10:missing-non-first-file-location (reproduced and printed).",
+   note=TB + "C10_splice_total removes the last fuel hypothesis (explicit bound spliceFuel; C10_read_with_includes_terminates, C10_read_fuel_irrelevant). Known finding C10:missing-non-first-file-location (reproduced and printed).",
    technique='splice-equivalence theorem by simulation in Lean 4 (scanner with include stack vs flat text, through the parser loop) + mechanism theorems + spliced-text / provenance / depth direct oracles on generated include forests', ref='§5 C10'),
  'C11': dict(
    text=("Proved: C11_balanced — for every world, configuration, source, fuel and EVERY outcome (accept, syntax/semantic abort, include "
@@ -265,7 +267,7 @@ CHECKS = {
          "C19_indent (every member on its own line, indented depth×width spaces or depth tabs), C19_clamp, C19_semicolon_only. All "
          "configurations, all option words. The writer model is compared byte for byte with the real config_write under random option "
          "vectors, tab widths 0..65535, precisions, default formats."),
-   note=TB + "That the scanner re-tokenises those bytes into the same items is C01/C18's subject.",
+   note=TB + BR + "That the scanner re-tokenises those bytes into the same items is C01's subject (C01_lex_items).",
    technique='structural-induction theorems about the writer model in Lean 4 + byte-exact differential correspondence', ref='§5 C19'),
 }
 
